@@ -22,7 +22,9 @@ RULE = ("per named curve: for every TLV node of every DER container the length-f
         "encodings (digest shorter / equal / longer than the order) mutated likewise (+ wrong string counts, zeros, ones, "
         "TLV attacks on the DER form) through sigdecode_string/_strings/_der and verify_digest / verify with each decoder; "
         "the six ECDH loaders on valid and mutated containers with the right / another / no curve set, followed by "
-        "generate_sharedsecret[_bytes] on the object; distinct = operation line; non-trivial = "
+        "generate_sharedsecret[_bytes] on the object; EVERY loader / decoder argument is handed over as bytes and, round-robin "
+        "(all of them for the valid and hand-made inputs), as bytearray, memoryview(bytearray) (writable, unhashable), "
+        "memoryview(bytes), array('B'); PEM loaders: bytes, bytearray, str; distinct = operation line; non-trivial = "
         "input is not accepted unchanged (a mutated or malformed encoding)")
 LEANCHECK = ["Props.C10"]
 ASSUMPTIONS = [
@@ -281,11 +283,11 @@ def ecdh_stream(ctx, per_seed):
             yield cv, "privpem", cv, b, "hand:" + tag
 
 
-def ecdh_call(op, state_curve, b):
+def ecdh_call(op, state_curve, b, kind="bytes"):
     """a fresh ECDH object, one loader call -> (object, public key returned / stored)"""
     from ecdsa.ecdh import ECDH
     e = ECDH(curve=state_curve)
-    r = getattr(e, ECDH_OPS[op])(b)
+    r = getattr(e, ECDH_OPS[op])(K.wrap(kind, b))
     vk = r if op.startswith("priv") else e.public_key
     return e, vk
 
@@ -317,30 +319,34 @@ def correspond(ctx):
     c.run()
     # ECDH loaders (model: Model/Ecdh.lean with the Keys model as key constructors)
     c = Corr(ctx, "ecdh")
+    rot = K.Rot()
     with K.Hooks() as hk:
         for cv, op, sc, b, tag in ecdh_stream(ctx, 2 if ctx.quick else 20):
             if sc is None and op == "pubbytes":
                 continue
-            out = K.real(hk, lambda: ecdh_call(op, sc, b))
+            kind = rot.pick(op.endswith("pem"), b)
+            out = K.real(hk, lambda: ecdh_call(op, sc, b, kind))
             heavy = op.startswith("priv") and out[0] == "ok" and (K.CurveInfo(cv).l > 32 or ctx.rng.random() < 0.7)
             K.add(c, "ecdh_load %s %s %s %s %s %s" % (op, sc.name if sc else "-", hx(b), hk.sqrt_tok(), hk.sub_tok(), hk.pub_tok()),
                   out, fmt_ecdh, "ecdh_" + op + "/" + tag.split(":")[0], model=not heavy)
         c.run()
     c = Corr(ctx, "loaders")
+    rot = K.Rot()
     with K.Hooks() as hk:
         for cv, entry, b, tag in stream(ctx, 6 if ctx.quick else 150):
             f = loaders(cv)[entry]
-            out = K.real(hk, lambda: f(b))
+            arg = K.wrap(rot.pick(entry.endswith("pem"), b), b)      # bytes / bytearray / memoryview / array (PEM: + str)
+            out = K.real(hk, lambda: f(arg))
             # model-ext mode rebuilds the generator's table in the driver for every accepted private key: sample it
             heavy = entry.startswith("sk") and out[0] == "ok" and (K.CurveInfo(cv).l > 32 or ctx.rng.random() < (0.9 if tag.startswith("tlv") else 0.5))
             K.add(c, line_for(entry, cv.name, b, hk), out, FMT[entry], entry + "/" + tag.split(":")[0], model=not heavy)
         c.run()
 
 
-def check(entry, cv, b):
-    """the property at one input: None, or the name of the undocumented exception"""
+def check(entry, cv, b, kind="bytes"):
+    """the property at one input handed over as `kind`: None, or the name of the undocumented exception"""
     try:
-        loaders(cv)[entry](b)
+        loaders(cv)[entry](K.wrap(kind, b))
     except Exception as e:  # noqa
         nm = common.errname(e)
         if nm not in DOCUMENTED:
@@ -348,24 +354,38 @@ def check(entry, cv, b):
     return None
 
 
+def kinds_to_try(rot, is_pem, b, tag):
+    """bytes and one more argument type round-robin; all of them for the valid and the hand-made inputs"""
+    ks = K.kinds_for(is_pem, b)
+    if tag == "valid" or tag.startswith("hand"):
+        return ks
+    k = rot.pick(is_pem, b)
+    return ("bytes",) if k == "bytes" else ("bytes", k)
+
+
 def search(ctx):
     n_eval = 0
+    rot = K.Rot()
     for cv, entry, b, tag in stream(ctx, 40 if ctx.quick else 2500):
-        n_eval += 1
-        bad = check(entry, cv, b)
         ctx.hist("search.entry", entry)
-        if bad:
-            ctx.violation({"input": {"entry": entry, "curve": cv.name, "bytes": b.hex(), "class": tag},
-                           "observed": bad, "expected": "returns a key or raises one of " + ", ".join(DOCUMENTED)})
-            if len(ctx.violations) >= 5:
+        for kind in kinds_to_try(rot, entry.endswith("pem"), b, tag):
+            n_eval += 1
+            ctx.hist("search.argument_type", kind)
+            bad = check(entry, cv, b, kind)
+            if bad:
+                ctx.violation({"input": {"entry": entry, "curve": cv.name, "bytes": b.hex(), "class": tag, "argument_type": kind},
+                               "observed": bad, "expected": "returns a key or raises one of " + ", ".join(DOCUMENTED)})
                 break
+        if len(ctx.violations) >= 5:
+            break
     # signature decoders and verification through each decoder
     import hashlib
     from ecdsa import util as U
     for cv, vk, dec, sig, dg, allow, tag in sig_stream(ctx, 8 if ctx.quick else 150):
         n_eval += 1
         ctx.hist("search.entry", "sigdecode_" + dec)
-        arg = sig if dec == "strings" else sig[0]
+        kind = rot.pick(False, b"")
+        arg = [K.wrap(kind, x) for x in sig] if dec == "strings" else K.wrap(kind, sig[0])
         f = {"string": U.sigdecode_string, "strings": U.sigdecode_strings, "der": U.sigdecode_der}[dec]
         bad = None
         try:
@@ -388,7 +408,8 @@ def search(ctx):
                     bad = (entry + "/" + dec, common.errname(e), "True or one of " + ", ".join(VERIFY_DOCUMENTED))
         if bad:
             ctx.violation({"input": {"entry": bad[0], "curve": cv.name, "x": K.vk_xy(vk)[0], "y": K.vk_xy(vk)[1], "decoder": dec,
-                                     "signature": [x.hex() for x in sig], "digest": dg.hex(), "allow_truncate": allow, "class": tag},
+                                     "signature": [x.hex() for x in sig], "digest": dg.hex(), "allow_truncate": allow, "class": tag,
+                                     "argument_type": kind},
                            "observed": bad[1], "expected": bad[2]})
             if len(ctx.violations) >= 8:
                 break
@@ -396,9 +417,14 @@ def search(ctx):
     for cv, op, sc, b, tag in ecdh_stream(ctx, 10 if ctx.quick else 200):
         n_eval += 1
         ctx.hist("search.entry", "ecdh_" + op)
-        bad = check_ecdh(op, sc, b)
+        bad, kind = None, "bytes"
+        for kind in kinds_to_try(rot, op.endswith("pem"), b, tag):
+            bad = check_ecdh(op, sc, b, kind)
+            if bad:
+                break
         if bad:
-            ctx.violation({"input": {"entry": "ecdh_" + op, "curve": cv.name, "object_curve": sc.name if sc else None, "bytes": b.hex(), "class": tag},
+            ctx.violation({"input": {"entry": "ecdh_" + op, "curve": cv.name, "object_curve": sc.name if sc else None, "bytes": b.hex(), "class": tag,
+                                     "argument_type": kind},
                            "observed": bad, "expected": "loader: ok or one of %s (NoCurveError for load_private_key_bytes without a curve); "
                                                         "then generate_sharedsecret[_bytes]: a value or one of %s" % (", ".join(ECDH_DOCUMENTED), ", ".join(ECDH_USE_DOCUMENTED))})
             if len(ctx.violations) >= 10:
@@ -432,14 +458,14 @@ def search(ctx):
     ctx.hist("search", "oracle_cases", n_eval)
 
 
-def check_ecdh(op, sc, b):
+def check_ecdh(op, sc, b, kind="bytes"):
     """the property at one ECDH loader input: None or a description of the undocumented behaviour"""
     from ecdsa.ecdh import ECDH
     if sc is None and op == "pubbytes":
         return None      # an ECDH object without a curve is outside the property (AttributeError, DESIGN observations)
     e = ECDH(curve=sc)
     try:
-        getattr(e, ECDH_OPS[op])(b)
+        getattr(e, ECDH_OPS[op])(K.wrap(kind, b))
     except Exception as ex:  # noqa
         nm = common.errname(ex)
         allowed = ECDH_DOCUMENTED + (("NoCurveError",) if sc is None and op == "privbytes" else ())
@@ -467,7 +493,7 @@ def replay(rec):
             return common.errname(e) != "MalformedPointError"
     if i["entry"].startswith("ecdh_"):
         sc = next((c for c in C.curves if c.name == i.get("object_curve")), None)
-        return check_ecdh(i["entry"][5:], sc, bytes.fromhex(i["bytes"])) is not None
+        return check_ecdh(i["entry"][5:], sc, bytes.fromhex(i["bytes"]), i.get("argument_type", "bytes")) is not None
     if "signature" in i:
         import hashlib
         from ecdsa import util as U, ellipticcurve as EC
@@ -475,7 +501,7 @@ def replay(rec):
         vk = VerifyingKey.from_public_point(EC.PointJacobi(cv.curve, i["x"], i["y"], 1, cv.order), cv, hashlib.sha256, validate_point=False)
         dec = i["decoder"]
         f = {"string": U.sigdecode_string, "strings": U.sigdecode_strings, "der": U.sigdecode_der}[dec]
-        sig = [bytes.fromhex(x) for x in i["signature"]]
+        sig = [K.wrap(i.get("argument_type", "bytes"), bytes.fromhex(x)) for x in i["signature"]]
         arg = sig if dec == "strings" else sig[0]
         try:
             f(arg, cv.order)
@@ -496,4 +522,4 @@ def replay(rec):
             return common.errname(e) not in DOCUMENTED
         return False
     cv = next((c for c in C.curves if c.name == i["curve"]), C.curves[0])
-    return check(i["entry"], cv, bytes.fromhex(i["bytes"])) is not None
+    return check(i["entry"], cv, bytes.fromhex(i["bytes"]), i.get("argument_type", "bytes")) is not None
